@@ -3,6 +3,7 @@
 package referenceclient
 
 import (
+	"encoding/base64"
 	"bytes"
 	"compress/gzip"
 	"encoding/binary"
@@ -87,6 +88,9 @@ func vfLimitServerCheck(c vfLimitCase) error {
 		return nil // environment problem, not a verdict
 	}
 	size := c.Limit + c.Delta
+	if c.Stream == "unary-json-direct" {
+		return vfLimitServerJSON(c, srv, size)
+	}
 	var msgs []proto.Message
 	streamType := conformancev1.StreamType_STREAM_TYPE_UNARY
 	method := "Unary"
@@ -185,6 +189,64 @@ func vfLimitServerCheck(c vfLimitCase) error {
 	return nil
 }
 
+// vfLimitServerJSON: a Connect unary request in the JSON codec sent by a plain HTTP client, its text padded with white
+// space to exactly size bytes (the reference client's own JSON rendering has no fixed size): the limit counts those bytes.
+func vfLimitServerJSON(c vfLimitCase, srv *verifsrv.Server, size int) error {
+	head := `{"responseDefinition":{"responseData":"b2s="},"requestData":"`
+	room := size - len(head) - 3
+	if room < 0 {
+		return nil
+	}
+	body := []byte(head + base64.StdEncoding.EncodeToString(make([]byte, room/8*3)) + `"`)
+	for len(body) < size-1 {
+		body = append(body, ' ')
+	}
+	body = append(body, '}')
+	vfRecMu.Lock()
+	vfRecSeq++
+	name := fmt.Sprintf("verif/c19j/%d", vfRecSeq)
+	vfRecMu.Unlock()
+	var payload io.Reader = bytes.NewReader(body)
+	hreq, _ := http.NewRequest(http.MethodPost, fmt.Sprintf("http://%s:%d/connectrpc.conformance.v1.ConformanceService/Unary", srv.Host, srv.Port), nil)
+	hreq.Header.Set("Content-Type", "application/json")
+	hreq.Header.Set("Connect-Protocol-Version", "1")
+	hreq.Header.Set("X-Test-Case-Name", name)
+	if c.Compression == int32(conformancev1.Compression_COMPRESSION_GZIP) {
+		payload = bytes.NewReader(vfGzip(body))
+		hreq.Header.Set("Content-Encoding", "gzip")
+	}
+	hreq.Body = io.NopCloser(payload)
+	hreq.ContentLength = -1
+	client := &http.Client{Transport: &http.Transport{DisableKeepAlives: true}, Timeout: 20 * time.Second}
+	hresp, err := client.Do(hreq)
+	if err != nil {
+		return nil // environment, no verdict
+	}
+	defer hresp.Body.Close()
+	respBody, _ := io.ReadAll(io.LimitReader(hresp.Body, 1<<20))
+	what := fmt.Sprintf("JSON request of %d bytes (limit %d%+d, gzip=%v) sent directly", size, c.Limit, c.Delta, hreq.Header.Get("Content-Encoding") != "")
+	if c.Delta <= 0 {
+		if hresp.StatusCode != 200 {
+			return verifkit.Violf("limit-rejected-at-or-below", "%s was rejected: %d %s", what, hresp.StatusCode, truncStr(string(respBody)))
+		}
+		return nil
+	}
+	if hresp.StatusCode == 200 {
+		return verifkit.Violf("limit-accepted-above", "%s was accepted", what)
+	}
+	if !strings.Contains(string(respBody), "resource_exhausted") {
+		return verifkit.Violf("limit-wrong-code", "%s was rejected with %d %s, want resource_exhausted", what, hresp.StatusCode, truncStr(string(respBody)))
+	}
+	return nil
+}
+
+func truncStr(s string) string {
+	if len(s) > 300 {
+		return s[:300] + "..."
+	}
+	return s
+}
+
 func TestVerifC19LimitServer(t *testing.T) {
 	defer verifsrv.StopCached()
 	verifkit.Run(t, "C19LimitServer", verifkit.Spec[vfLimitCase]{
@@ -193,7 +255,7 @@ func TestVerifC19LimitServer(t *testing.T) {
 				Limit:    rapid.SampledFrom([]int{1024, 1024, 200 * 1024, 3000, 70000}).Draw(t, "limit"),
 				Delta:    rapid.SampledFrom([]int{-1, 0, 0, 1, 1, 2, -7, 50}).Draw(t, "delta"),
 				Protocol: int32(rapid.IntRange(1, 3).Draw(t, "protocol")), Compression: int32(rapid.IntRange(1, 6).Draw(t, "compression")),
-				Stream: rapid.SampledFrom([]string{"unary", "unary", "client-stream", "server-stream", "bidi-half-first", "bidi-half-later", "bidi-full-first"}).Draw(t, "stream"), Zero: rapid.Bool().Draw(t, "zero"),
+				Stream: rapid.SampledFrom([]string{"unary", "unary", "client-stream", "server-stream", "bidi-half-first", "bidi-half-later", "bidi-full-first", "unary-json-direct"}).Draw(t, "stream"), Zero: rapid.Bool().Draw(t, "zero"),
 			}
 		},
 		Check: vfLimitServerCheck,
@@ -212,6 +274,35 @@ type vfClientLimitCase struct {
 	Gzip   bool `json:"gzip"`
 	Zero   bool `json:"zeroPadding"`
 	H2     bool `json:"h2"`
+	JSON   bool `json:"jsonCodec,omitempty"` // the limit then counts the bytes of the JSON text
+}
+
+// vfSizedJSON: a JSON rendering of a response message (UnaryResponse and ServerStreamResponse look the same) of exactly size bytes.
+func vfSizedJSON(size int, zero bool) []byte {
+	head, tail := `{"payload":{"data":"`, `"}`
+	room := size - len(head) - len(tail) - 1
+	if room < 0 {
+		return nil
+	}
+	n := room / 4 * 4 // base64 text
+	if !zero && n > 64 {
+		n = 64 + (n-64)/8*4 // part of the room is taken by data, the rest by white space
+	}
+	raw := make([]byte, n/4*3)
+	if !zero {
+		x := uint32(88172645)
+		for i := range raw {
+			x ^= x << 13
+			x ^= x >> 17
+			x ^= x << 5
+			raw[i] = byte(x)
+		}
+	}
+	out := []byte(head + base64.StdEncoding.EncodeToString(raw) + tail)
+	for len(out) < size-1 {
+		out = append(out, ' ')
+	}
+	return append(out, '}')
 }
 
 var (
@@ -238,6 +329,11 @@ func vfStartPlainResponders() error {
 				size, _ := strconv.Atoi(r.Header.Get("X-Verif-Size"))
 				zero := r.Header.Get("X-Verif-Zero") == "1"
 				gz := r.Header.Get("X-Verif-Gzip") == "1"
+				asJSON := r.Header.Get("X-Verif-Json") == "1"
+				if asJSON && vfSizedJSON(size, zero) == nil {
+					w.WriteHeader(500)
+					return
+				}
 				payload := &conformancev1.ConformancePayload{}
 				if r.Header.Get("X-Verif-Stream") == "1" {
 					msg := &conformancev1.ServerStreamResponse{Payload: payload}
@@ -247,6 +343,10 @@ func vfStartPlainResponders() error {
 					}
 					data, _ := proto.Marshal(msg)
 					w.Header().Set("Content-Type", "application/connect+proto")
+					if asJSON {
+						data = vfSizedJSON(size, zero)
+						w.Header().Set("Content-Type", "application/connect+json")
+					}
 					flags := byte(0)
 					if gz {
 						w.Header().Set("Connect-Content-Encoding", "gzip")
@@ -273,6 +373,10 @@ func vfStartPlainResponders() error {
 				}
 				data, _ := proto.Marshal(msg)
 				w.Header().Set("Content-Type", "application/proto")
+				if asJSON {
+					data = vfSizedJSON(size, zero)
+					w.Header().Set("Content-Type", "application/json")
+				}
 				if gz {
 					w.Header().Set("Content-Encoding", "gzip")
 					data = vfGzip(data)
@@ -329,7 +433,11 @@ func vfClientLimitCheck(c vfClientLimitCase) error {
 	}
 	size := c.Limit + c.Delta
 	probe := &conformancev1.ConformancePayload{}
-	if !vfSizedNested(&conformancev1.UnaryResponse{Payload: probe}, probe, size, true) {
+	if c.JSON {
+		if vfSizedJSON(size, true) == nil {
+			return nil
+		}
+	} else if !vfSizedNested(&conformancev1.UnaryResponse{Payload: probe}, probe, size, true) {
 		return nil // this exact size is not reachable with the two nested length prefixes
 	}
 	idx := 0
@@ -353,12 +461,16 @@ func vfClientLimitCheck(c vfClientLimitCase) error {
 	if c.Gzip {
 		comp = conformancev1.Compression_COMPRESSION_GZIP
 	}
+	codec := conformancev1.Codec_CODEC_PROTO
+	if c.JSON {
+		codec = conformancev1.Codec_CODEC_JSON
+	}
 	req := &conformancev1.ClientCompatRequest{
-		TestName: name, HttpVersion: version, Protocol: conformancev1.Protocol_PROTOCOL_CONNECT, Codec: conformancev1.Codec_CODEC_PROTO,
+		TestName: name, HttpVersion: version, Protocol: conformancev1.Protocol_PROTOCOL_CONNECT, Codec: codec,
 		Compression: comp, Host: host, Port: uint32(port), Service: proto.String("connectrpc.conformance.v1.ConformanceService"),
 		MessageReceiveLimit: uint32(c.Limit),
 		RequestHeaders: []*conformancev1.Header{{Name: "X-Test-Case-Name", Value: []string{name}}, {Name: "X-Verif-Size", Value: []string{strconv.Itoa(size)}},
-			{Name: "X-Verif-Zero", Value: []string{b(c.Zero)}}, {Name: "X-Verif-Gzip", Value: []string{b(c.Gzip)}}, {Name: "X-Verif-Stream", Value: []string{b(c.Stream)}}},
+			{Name: "X-Verif-Zero", Value: []string{b(c.Zero)}}, {Name: "X-Verif-Gzip", Value: []string{b(c.Gzip)}}, {Name: "X-Verif-Stream", Value: []string{b(c.Stream)}}, {Name: "X-Verif-Json", Value: []string{b(c.JSON)}}},
 	}
 	if c.Stream {
 		req.Method, req.StreamType = proto.String("ServerStream"), conformancev1.StreamType_STREAM_TYPE_SERVER_STREAM
@@ -375,7 +487,7 @@ func vfClientLimitCheck(c vfClientLimitCase) error {
 	if result == nil {
 		return verifkit.Violf("limit-client-failed", "reference client reported: %v", resp.GetError())
 	}
-	what := fmt.Sprintf("response message of %d bytes (limit %d%+d, stream=%v gzip=%v h2=%v)", size, c.Limit, c.Delta, c.Stream, c.Gzip, c.H2)
+	what := fmt.Sprintf("response message of %d bytes (limit %d%+d, stream=%v gzip=%v h2=%v json=%v)", size, c.Limit, c.Delta, c.Stream, c.Gzip, c.H2, c.JSON)
 	if c.Delta <= 0 {
 		if result.Error != nil {
 			return verifkit.Violf("client-limit-rejected-at-or-below", "%s was rejected: %v", what, result.Error)
@@ -404,11 +516,16 @@ func TestVerifC19LimitClient(t *testing.T) {
 				Limit:  rapid.SampledFrom([]int{1024, 1024 * 1024, 3000, 70000, 200}).Draw(t, "limit"),
 				Delta:  rapid.SampledFrom([]int{-1, 0, 0, 1, 1, 2, -9, 40}).Draw(t, "delta"),
 				Stream: rapid.Bool().Draw(t, "stream"), Gzip: rapid.Bool().Draw(t, "gzip"), Zero: rapid.Bool().Draw(t, "zero"), H2: rapid.Bool().Draw(t, "h2"),
+				JSON: rapid.IntRange(0, 2).Draw(t, "json") == 0,
 			}
 		},
 		Check: vfClientLimitCheck,
 		Classify: func(c vfClientLimitCase) ([]string, bool) {
-			return []string{fmt.Sprintf("delta%+d", c.Delta)}, c.Delta >= 0 && c.Delta <= 1 && c.Gzip
+			codec := "proto"
+			if c.JSON {
+				codec = "json"
+			}
+			return []string{fmt.Sprintf("delta%+d", c.Delta), codec}, c.Delta >= 0 && c.Delta <= 1 && c.Gzip
 		},
 	})
 }
